@@ -134,7 +134,7 @@ func c19Gen(c *vfCtx, emit func(c19Case)) {
 		}
 	}
 	// 1..3 calls per test, 1..3 executions, then update with shorter / longer values
-	short := []string{"", "a", "a\r\n", "---", "\xff", "go:struct", strings.Repeat("long ", 40)}
+	short := []string{"", "a", "a\r\n", "---", "\xff", "go:struct", strings.Repeat("long ", 40), "a\nb", "a\n", "a\nb\n\nc"}
 	for _, n := range names {
 		for _, execs := range []int{1, 2, 3} {
 			for i, v1 := range short {
